@@ -181,16 +181,26 @@ def sortStrings (l : List String) : List String := l.mergeSort (fun a b => a ≤
 structure IFlight where
   fid : Nat
   ids : List Nat
-  finished : Option Bool := none   -- some err
+  finished : Option Err := none   -- some outcome
+
+def parseKind (k : Nat) : Option Err :=
+  match k with
+  | 0 => some {}
+  | 1 => some { plain := true }
+  | 2 => some { shut := true }
+  | _ => Option.none
+
+def b01 (b : Bool) : Nat := if b then 1 else 0
 
 structure BS where
   cfg : BCfg := ⟨0, 0⟩
   st : BState := {}
   consumed : List Nat := []
   iflights : List IFlight := []
-  ifired : List (Nat × Bool) := []
+  ifired : List (Nat × Err) := []
   fails : List String := []
-  lastFinish : Option (Nat × Bool) := none
+  lastFinish : Option (Nat × Err) := none
+  pendingDisabled : Option Err := none
 
 def startFlights (s : BS) (fl : List (Parts × List DoneObj)) : BS × List String :=
   -- the harness numbers the flushes started by one label in the order of their content
@@ -206,8 +216,8 @@ def showCur (s : BS) : String :=
   | some (p, _) => s!"obs cur {showParts p}"
   | Option.none => "obs cur none"
 
-def showFired (l : List (Nat × Bool)) : List String :=
-  sortStrings (l.map (fun (id, e) => s!"obs fired id={id} err={if e then 1 else 0}"))
+def showFired (l : List (Nat × Err)) : List String :=
+  sortStrings (l.map (fun (id, e) => s!"obs fired id={id} err={b01 e.any} plain={b01 e.plain} shut={b01 e.shut}"))
 
 def batcherHandler : Handler BS where
   init := {}
@@ -224,13 +234,21 @@ def batcherHandler : Handler BS where
         let (s', lines) := startFlights { s with st := r.1, consumed := s.consumed ++ [id] } r.2
         (s', lines ++ [showCur s'])
       | _, _ => (s, ["obs bad-op"])
-    | ["finish", f, ok] =>
-      match kvNat [f] "f", kvNat [ok] "ok" with
-      | some f, some ok =>
-        let r := s.st.finish f (ok == 0)
-        let s' := { s with st := r.1, lastFinish := some (f, ok == 0) }
+    | ["finish", f, kind] =>
+      match kvNat [f] "f", (kvNat [kind] "kind").bind parseKind with
+      | some f, some e =>
+        let r := s.st.finish f e
+        let s' := { s with st := r.1, lastFinish := some (f, e) }
         (s', showFired r.2 ++ [showCur s'])
       | _, _ => (s, ["obs bad-op"])
+    | ["dconsume", id, us, kind] =>
+      -- disabled batcher: one synchronous flush per request
+      match kvNat [id] "id", (kv [us] "units").bind (fun u => (u.splitOn ",").mapM String.toNat?), (kvNat [kind] "kind").bind parseKind with
+      | some id, some us, some e =>
+        let f := s.st.nextF
+        let s' := { s with st := { s.st with nextF := f + 1 }, consumed := s.consumed ++ [id], pendingDisabled := some e }
+        (s', [s!"obs flush f={f} parts={showParts (us.map (fun n => (id, n)))}"] ++ showFired (consumeDisabled id e) ++ ["obs cur none"])
+      | _, _, _ => (s, ["obs bad-op"])
     | ["tick"] | ["shutdown"] =>
       let r := s.st.flushCur
       let (s', lines) := startFlights { s with st := r.1 } r.2
@@ -245,23 +263,29 @@ def batcherHandler : Handler BS where
     match toks with
     | [_, "flush", f, parts] =>
       match kvNat [f] "f", (kv [parts] "parts").bind parseParts with
-      | some f, some p => { s with iflights := s.iflights ++ [{ fid := f, ids := (p.map (·.1)).eraseDups }] }
+      | some f, some p => { s with iflights := s.iflights ++ [{ fid := f, ids := (p.map (·.1)).eraseDups, finished := s.pendingDisabled }],
+                                   pendingDisabled := Option.none }
       | _, _ => { s with fails := s.fails ++ ["prop done=FAIL sig=C04/batcher/unparsable-flush"] }
-    | [_, "fired", id, err] =>
-      match kvNat [id] "id", kvNat [err] "err" with
-      | some id, some err =>
+    | [_, "fired", id, err, plain, shut] =>
+      match kvNat [id] "id", kvNat [err] "err", kvNat [plain] "plain", kvNat [shut] "shut" with
+      | some id, some err, some plain, some shut =>
         let mine := s.iflights.filter (fun g => g.ids.contains id)
-        let s := { s with ifired := s.ifired ++ [(id, err == 1)] }
+        let got : Err := { plain := plain == 1, shut := shut == 1 }
+        let want : Err := mine.foldl (fun acc g => acc.or (g.finished.getD {})) {}
+        let s := { s with ifired := s.ifired ++ [(id, got)] }
         if (s.ifired.filter (·.1 = id)).length > 1 then
           { s with fails := s.fails ++ [s!"prop done=FAIL sig=C04/batcher/done-fired-twice id={id}"] }
         else if mine.any (fun g => g.finished.isNone) then
           { s with fails := s.fails ++ [s!"prop done=FAIL sig=C04/batcher/done-before-all-batches-finished id={id}"] }
         else if mine.isEmpty then
           { s with fails := s.fails ++ [s!"prop done=FAIL sig=C04/batcher/done-without-any-batch id={id}"] }
-        else if (err == 1) != mine.any (fun g => g.finished == some true) then
+        else if (err == 1) != want.any then
           { s with fails := s.fails ++ [s!"prop done=FAIL sig=C04/batcher/done-error-mismatch id={id} reported={err}"] }
+        else if got != want then
+          -- an error is reported, but not every failed part's classification survived the combination
+          { s with fails := s.fails ++ [s!"prop done=FAIL sig=C04/batcher/done-error-classification-lost id={id} got_plain={plain} got_shutdown={shut} want_plain={b01 want.plain} want_shutdown={b01 want.shut}"] }
         else s
-      | _, _ => { s with fails := s.fails ++ ["prop done=FAIL sig=C04/batcher/unparsable-fired"] }
+      | _, _, _, _ => { s with fails := s.fails ++ ["prop done=FAIL sig=C04/batcher/unparsable-fired"] }
     | _ => s
   onEnd := fun s =>
     -- conservation through the batcher: every unit of every consumed request left in exactly one flush
